@@ -85,7 +85,7 @@ def main():
             shutil.copy(patch, os.path.join(dest, "patch.diff"))
             shutil.copy(os.path.join(src, demo_src), os.path.join(dest, demo_src))
             meta = json.load(open(os.path.join(src, "meta.json")))
-            meta["evaluated"] = {"ran": "bin/seedeval.py %s" % " ".join(sys.argv[1:]), "suite_passes_with_patch": True, "demo_clean": "PASS", "demo_patched": "FAIL",
+            meta["evaluated"] = {"ran": "bin/seedeval.py %s" % " ".join(sys.argv[1:]), "budget_s": int(budget), "suite_passes_with_patch": True, "demo_clean": "PASS", "demo_patched": "FAIL",
                                  "demo_dest": demo_dest, "demo_cmd": "go test -vet=off -count=1 " + test_args, "checks": out["checks"]}
             json.dump(meta, open(os.path.join(dest, "meta.json"), "w"), indent=1)
         print(json.dumps(out, indent=1))
